@@ -156,7 +156,7 @@ def sn0d_case(S, rng, n=40):
 
 
 # ---- a small catalogue of runs per tier -------------------------------------------------------------------
-def catalogue(rng, tier, dims=("homogeneous", "spatial_1D", "spatial_2D"), confs=None, cn=False, n0=4, n1=3, n2=1, early_vacuum=False, late_vacuum=False, wide_depression=False):
+def catalogue(rng, tier, dims=("homogeneous", "spatial_1D", "spatial_2D"), confs=None, cn=False, n0=4, n1=3, n2=1, early_vacuum=False, late_vacuum=False, wide_depression=False, repoint=False):
     """yield dict(label, S, dt, nsteps, error) for randomly drawn configurations that keep <= 10000 steps
     (so that the spatial models save every step)"""
     out = []
@@ -169,13 +169,13 @@ def catalogue(rng, tier, dims=("homogeneous", "spatial_1D", "spatial_2D"), confs
     if "spatial_2D" in dims:
         cs = confs or ["shelf", "jacket", "VISF"]
         plan += [("spatial_2D", cs[i % len(cs)]) for i in range(n2)]
-    for dim, conf in plan:
+    for pi, (dim, conf) in enumerate(plan):
         if dim == "homogeneous":
             h, d, K = rng.choice([0.01, 0.02]), 0.01, rng.choice([20, 50, 100])
             tt = rng.choice([1.5, 2.0, 3.0]) * 3600
             over = {"vial": {"geometry": {"length": rng.choice([0.01, 0.015]), "width": 0.01}}}
         elif dim == "spatial_1D":
-            h, d, K = rng.choice([0.04, 0.05, 0.06]), 0.05, rng.choice([150, 200, 400])
+            h, d, K = rng.choice([0.05, 0.06, 0.08]), 0.05, rng.choice([150, 200, 400])
             tt = None
             over = {}
         else:
@@ -185,6 +185,11 @@ def catalogue(rng, tier, dims=("homogeneous", "spatial_1D", "spatial_2D"), confs
         start = rng.choice([20, 10, 5]); end = rng.choice([-50, -45, -60])
         holds = [] if rng.random() < 0.5 else [{"duration": rng.choice([300, 900, 1800]), "temp": rng.choice([-5, -8, -10])}]
         prog = dict(start=start, end=end, rate=rng.choice([1.0, 2.0]) / 60, holds=holds, t_tot=tt or 3600.0, dt=1.0)
+        if dim != "homogeneous":
+            # at most ~10000 steps are simulated (every step saved): cool fast enough for the vial to solidify within them
+            prog["rate"] = rng.choice([2.0, 3.0]) / 60
+            for hd in holds:
+                hd["duration"] = min(hd["duration"], 600)
         if conf == "VISF":
             over["VISF"] = {"t_vac_start": rng.choice([0.15, 0.2, 0.3]), "t_vac_duration": rng.choice([0.1, 0.3]), "kappa": rng.choice([0.01, 0.05])}
         if conf == "VISF" and early_vacuum:
@@ -196,10 +201,10 @@ def catalogue(rng, tier, dims=("homogeneous", "spatial_1D", "spatial_2D"), confs
             prog.update(start=10, rate=2.0 / 60, holds=[])
         if rng.random() < 0.4:
             over.setdefault("solution", {})["solid_fraction"] = rng.choice([0.02, 0.05, 0.1])
-        if rng.random() < 0.5:
-            # other solution / water constants (heavy water melts at 3.82 C; other solute, density, kinetics)
+        if pi % 2 == 1 or rng.random() < 0.25:
+            # (every second entry, and some more) other solution / water constants (heavy water melts at 3.82 C; other solute, density, kinetics)
             sol = over.setdefault("solution", {})
-            sol["T_eq"] = rng.choice([3.82, -0.5, 0, 1.0]); sol["rho_l"] = rng.choice([1000, 1050, 1105])
+            sol["T_eq"] = rng.choice([3.82, -0.5, -2.0, 1.0]); sol["rho_l"] = rng.choice([1000, 1050, 1105])
             sol["k_f"] = rng.choice([1.853, 1.5, 2.05]); sol["M_s"] = rng.choice([0.3423, 0.18, 0.0584]); sol["cp_s"] = rng.choice([1240, 1500])
             over.setdefault("water", {})["cp_i"] = rng.choice([2108, 2050])
             over.setdefault("kinetics", {})["a"] = rng.choice([29.0, 26.0, 31.0])
@@ -218,7 +223,23 @@ def catalogue(rng, tier, dims=("homogeneous", "spatial_1D", "spatial_2D"), confs
             prog["t_tot"] = float(int(dt * rng.choice([9000, 9500, 9900])))
             S = make(dim=dim, conf=conf, height=h, diameter=d, K=K, prog=prog, cnTemp=cnT, extra=over)
         dt, n = step_info(S)
-        rec = dict(label="%s/%s h=%g d=%g K=%g %s cn=%r" % (dim, conf, h, d, K, {k: prog[k] for k in ("start", "end", "rate", "holds", "t_tot")}, cnT),
+        hist = ""
+        if repoint:
+            # history: the object is BUILT with another configuration file (other concentration, kinetics, vacuum window) and its
+            # configPath is then re-pointed to the configuration under test; everything must be as for a fresh object
+            import copy
+            overA = copy.deepcopy(over)
+            solA = overA.setdefault("solution", {})
+            solA["solid_fraction"] = 0.03 if over.get("solution", {}).get("solid_fraction", 0.05) != 0.03 else 0.08
+            solA["T_eq"] = over.get("solution", {}).get("T_eq", 0) + 1.5
+            overA.setdefault("kinetics", {}).update(a=23.0, b=24.0)
+            if conf == "VISF":
+                v = dict(over.get("VISF", {}))
+                overA["VISF"] = dict(v, t_vac_start=v.get("t_vac_start", 0.75) + 0.35, kappa=min(1.0, v.get("kappa", 0.01) * 4))
+            S = make(dim=dim, conf=conf, height=h, diameter=d, K=K, prog=prog, cnTemp=cnT, extra=overA)
+            S.configPath = impl.cfg_path(make_over(dim, conf, h, d, over))
+            hist = " history: built with another configuration file, configPath re-pointed"
+        rec = dict(label="%s/%s h=%g d=%g K=%g %s cn=%r%s" % (dim, conf, h, d, K, {k: prog[k] for k in ("start", "end", "rate", "holds", "t_tot")}, cnT, hist),
                    dim=dim, conf=conf, S=S, dt=dt, nsteps=n, prog=prog, cnTemp=cnT, over=over, height=h, diameter=d, K=K, error=None)
         try:
             rec["wall"] = run(S)
